@@ -21,7 +21,7 @@ na = {
 }
 checks = {
 "C11": dict(engine="abortsim", category="fault_enumeration",
-  text="The parse budget is a cooperative fault point compiled into the parser (abort at step n+1, recovered into an error). For each sampled input (the repository's parser tests, seeded grammar derivations, token-level mutations, early-failing inputs with a long unread tail, flat chains of 60-300 terms, nested parentheses to depth 16 whose unlimited parse is never run) every abort point is enumerated - all n in [1,S+2] when the unlimited parse takes S<=1500/4096 steps; n<=64, S+-k, a geometric sweep to 2^18/2^22, seeded samples and huge budgets up to 2^64-1 otherwise - through both grammar.Parse+MaxExpressions and bexpr.CreateEvaluator+WithMaxExpressions (with other options around it, and as the last of several budget options in one list), each API driven reference-first or limited-first (threshold located through the public option before any unlimited parse of that input). Oracles: budget 0 = no budget; the result is exactly the unlimited one or nil + max-expressions error; the threshold is monotone and exceeds the instrumented step count by at most one; parseExpr entries counted by instrumentation never exceed n+1; statements executed stay proportional to n; an aborted parse leaves no residue for later parses; the result for a budget does not depend on what was parsed before, nor - a second phase on the simsched engine - on what other callers parse at the same time (2-4 callers creating evaluators with budgets around the measured step counts under seeded schedules), nor - a volume phase on the untouched build - on how many hostile inputs the process has refused before (30 000-120 000 distinct refusals under budget B per worker process, then 80 000 / 1 500 000 distinct harmless inputs far below B that must all parse). Complete per input over abort points; inputs are sampled, so this is evidence, not proof.",
+  text="The parse budget is a cooperative fault point compiled into the parser (abort at step n+1, recovered into an error). For each sampled input (the repository's parser tests, seeded grammar derivations, token-level mutations, early-failing inputs with a long unread tail, flat chains of 60-300 terms, nested parentheses to depth 16 whose unlimited parse is never run) every abort point is enumerated - all n in [1,S+2] when the unlimited parse takes S<=1500/4096 steps; n<=64, S+-k, a geometric sweep to 2^18/2^22, seeded samples and huge budgets up to 2^64-1 otherwise - through both grammar.Parse+MaxExpressions and bexpr.CreateEvaluator+WithMaxExpressions (with other options around it, and as the last of several budget options in one list), each API driven reference-first or limited-first (threshold located through the public option before any unlimited parse of that input). Oracles: budget 0 = no budget; the result is exactly the unlimited one or nil + max-expressions error; the threshold is monotone and exceeds the instrumented step count by at most one; parseExpr entries counted by instrumentation never exceed n+1; statements executed stay proportional to n; an aborted parse leaves no residue for later parses; the result for a budget does not depend on what was parsed before, nor - a second phase on the simsched engine - on what other callers parse at the same time (2-4 callers creating evaluators with budgets around the measured step counts under seeded schedules), nor - a volume phase on the untouched build - on how many hostile inputs the process has refused before (30 000-120 000 distinct refusals under budget B per worker process, then 80 000 / 1 500 000 distinct harmless inputs far below B that must all parse), nor on whether the process has seen the input before (fresh twins of seven templates, each parsed twice in a row under budgets around its step count). Complete per input over abort points; inputs are sampled, so this is evidence, not proof.",
   design="4.4",
   note="Trusted: the AST instrumenter (checked on every run by running the repository's own suite on the instrumented copy), the step definition (entry of (*parser).parseExpr in the current tree; if that function disappears only the proportional bound applies), the learned text of the budget error (taken from budget 1 on a calibration input, not copied from the source).",
   technique="deterministic simulation: enumeration of injected abort points (parse budget) inside a running parse, differential against the unlimited run"),
